@@ -46,15 +46,24 @@ CHECKS={
    text='Exhaustive enumeration of plan documents: all 1-2 task documents over title variants (distinct, duplicate, case variant, trailing space, blank, missing, NFC duplicate) x `after` multisets (<=2) over {other, own, dangling, empty, case variant, trailing-space variant}; every relation (incl. cyclic) on 3 tasks with distinct and duplicate titles (thorough: all 4096 relations on 4 tasks); body and epic-title variants; 22 structurally invalid payloads; each x 5 pre-stores (empty, rich, legacy file name, two torn tails). Oracle: accept iff the reference model accepts; on accept exactly one epic + n todo unclaimed tasks inside it with byte-equal titles/bodies, edge set = `after` relation, reply = read-back, creation order = input order, every pre-existing show byte-identical, store readable; on reject one error object and a byte-identical .ergo.',
    note='Reference model is a literal reading of the property. Small-scope: <=3 (4) tasks.',
    technique='exhaustive small-scope input enumeration over real commands + reference model'),
+
+ 'C01': dict(engine='SCHED', level='model_checking', design='3/C01',
+   text='Stateless model checking of real ergo processes: 2-4 `claim` processes (with/without --epic; alone and with a put-back, dependency-finishing, creating, pruning or compacting writer; small, 140 KB and 2.5 MB logs) are parked at the verifPoint hooks before every store operation and every interleaving up to 2 (thorough 3-4) preemptions is executed. Oracle per execution: some order of the commands that exited 0, consistent with real time, reproduces every reply (which task / no_ready) and the final observable state when run one at a time on the real code (so the oldest ready task wins), lock-busy commands changed nothing, no task is handed out twice, the winner\'s task is doing and claimed by it, log intact, nobody blocks.',
+   note='Code between two hook points is treated as atomic; a single write(2)/rename(2) is indivisible. Preemption-bounded (bound reported), not unbounded. The schedule is the only nondeterminism (replayed twice per scenario; divergence is a hard error).',
+   technique='stateless model checking (iterative preemption bounding) of real processes under a controlled scheduler'),
+ 'C02': dict(engine='SCHED', level='model_checking', design='3/C02',
+   text='Every unordered pair over a 20-command alphabet (new, new with claim, new in epic, set with 1/3/result fields, unclaim, set doing, claim, claim <id>, sequence both directions, rm, chain, plan, prune, compact, init, reopen) plus init / missing-lock-file races and triples, each explored under every interleaving of the hooked store steps up to the preemption bound (quick: 1, 2 for the conflict-prone single-section commands; thorough: 3). Oracle: serial equivalence on the real implementation in an order consistent with real time for the commands that exited 0 (replies + final observable state), failed commands contribute nothing, log is whole JSON lines, nobody blocks in flock. Composite commands are additionally tried at lock-section granularity: explainable only that way = known finding K1-K3 attributed to that call site.',
+   note='Same assumptions as C01. Serial reference runs use the same binary (differential oracle).',
+   technique='stateless model checking (iterative preemption bounding) of real processes + serial-equivalence oracle'),
 }
 NA_REASON='check not built yet (work in progress; design in DESIGN.md)'
 m={"version":1,
  "setup_cmd":"./setup.sh",
  "hooks":{"guard":"verif (Go build tag)","enable":"go build -tags verif -overlay <adds /verif/harness/zz_verif_server.go to cmd/ergo> ./cmd/ergo","baseline_off_cmd":"/verif/baseline.sh /repo","source_commits":hook_commits,"add_only":True},
  "engines":[
-  {"name":"SEQ","path":"/verif/internal/checks","serves_properties":[k for k,v in CHECKS.items() if v['engine']=='SEQ'],"kind_free_text":"explicit-state / exhaustive small-scope search whose transition function is the real ergo command (in-process server, conformance-checked against spawned binaries)"},
-  {"name":"SCHED","path":"/verif/internal/sched","serves_properties":[k for k,v in CHECKS.items() if v['engine']=='SCHED'],"kind_free_text":"stateless preemption-bounded DFS over real ergo processes parked at verifPoint hooks"},
-  {"name":"CRASH","path":"/verif/internal/crash","serves_properties":[k for k,v in CHECKS.items() if v['engine']=='CRASH'],"kind_free_text":"SIGKILL at every store syscall boundary (strace fault injection) + torn-write enumeration + recovery chains"},
+  {"name":"SEQ","path":"/verif/internal/checks","serves_properties":[k for k,v in CHECKS.items() if 'SEQ' in v['engine']],"kind_free_text":"explicit-state / exhaustive small-scope search whose transition function is the real ergo command (in-process server, conformance-checked against spawned binaries)"},
+  {"name":"SCHED","path":"/verif/internal/sched","serves_properties":[k for k,v in CHECKS.items() if 'SCHED' in v['engine']],"kind_free_text":"stateless preemption-bounded DFS over real ergo processes parked at verifPoint hooks"},
+  {"name":"CRASH","path":"/verif/internal/crash","serves_properties":[k for k,v in CHECKS.items() if 'CRASH' in v['engine']],"kind_free_text":"SIGKILL at every store syscall boundary (strace fault injection) + torn-write enumeration + recovery chains"},
  ],
  "checks":[],"not_applicable":[]}
 for i in ids:
